@@ -444,6 +444,27 @@ example : (run (0 : ℚ) 0 (0 : Nat) (fun a _ => a + 1) almEx probEx [1] [2] non
         (fun _ => false) (fun _ => false) [] 0 0)).y = [2] := by
   decide +kernel
 
+/-- **the whole stack from a point that is not the solution**: ALM over FISTA from `x = [1/2]` — the inner solve iterates
+    (see the inner-run example above: `0 < iterations`) — returns `Converged`, certified with every hypothesis discharged -/
+example : KKTCert pbEx 1 (1/10) (1/100)
+    (run (0 : ℚ) 0 (0 : Nat) (fun a _ => a + 1) almEx probEx [1/2] [2] none
+      (fistaInner (cfProblemFista pbEx psiEx) prFx (fun _ _ => false) (fun _ => false)
+        (fun _ => false) (fun _ => false) [] 0 0)).x
+    (run (0 : ℚ) 0 (0 : Nat) (fun a _ => a + 1) almEx probEx [1/2] [2] none
+      (fistaInner (cfProblemFista pbEx psiEx) prFx (fun _ _ => false) (fun _ => false)
+        (fun _ => false) (fun _ => false) [] 0 0)).y :=
+  alm_fista_certifies_kkt (0 : ℚ) 0 (0 : Nat) (fun a _ => a + 1) almEx probEx [1/2] [2] none pbEx 1
+    (cfProblemFista pbEx psiEx) pbEx_contractFista prFx (by norm_num [prFx]) 10 prFx_fuel rfl
+    (fun _ _ => false) (fun _ => false) (fun _ => false) (fun _ => false) [] 0 0
+    (by decide) pbEx_C pbEx_D (by norm_num [almEx]) (by norm_num [almEx]) trivial rfl rfl
+    (by decide +kernel)
+
+/-- … and it does not return its starting point -/
+example : (run (0 : ℚ) 0 (0 : Nat) (fun a _ => a + 1) almEx probEx [1/2] [2] none
+      (fistaInner (cfProblemFista pbEx psiEx) prFx (fun _ _ => false) (fun _ => false)
+        (fun _ => false) (fun _ => false) [] 0 0)).x ≠ [1/2] := by
+  decide +kernel
+
 end examples
 
 end Alpaqa.Props.C01Fista
